@@ -555,6 +555,72 @@ func TestVerif_C08_EntryInternals(t *testing.T) {
 		kv.Mod(kv, sm2gen.NM1).Add(kv, big.NewInt(1))
 		k = gen.Pad32(kv)
 		entry := gen.Pick(t, "entry", "SignHashed", "SignHashed", "GenerateKey", "DerivePublic")
+		// The signer compares three secret-derived quantities with constants: r with 0, r+k with n, s with 0. One case in six TIES
+		// the public digest e (or the key) to the nonce so that ONE of them agrees with its constant in some 64-bit words but not
+		// in all — the accepted path, on which a word-wise shortcut in front of the full comparison would take the other branch.
+		if entry == "SignHashed" && gen.Uniform(t, "partial-match", 0, 5) == 0 {
+			which := gen.Pick(t, "partial-which", "r+k~n", "r+k~n", "r~0", "s~0")
+			mask := gen.Uniform(t, "partial-words", 1, 14) // which of the four words agree (not all, not none)
+			words := func(base *big.Int) *big.Int {
+				v := new(big.Int)
+				for w := 3; w >= 0; w-- {
+					var limb uint64
+					if mask>>uint(w)&1 == 1 {
+						limb = new(big.Int).Rsh(base, uint(64*w)).Uint64()
+					} else {
+						limb = r0.Uint64() | 1<<uint(r0.Intn(64))
+					}
+					v.Lsh(v, 64).Or(v, new(big.Int).SetUint64(limb))
+				}
+				return v
+			}
+			x1 := sm2ref.Mul(kv, sm2ref.G).X
+			switch which {
+			case "r+k~n":
+				T := words(sm2gen.N) // r+k = T, r in [1,n-1]: k is re-drawn inside the window T allows
+				T.Mod(T, new(big.Int).Lsh(sm2gen.N, 1))
+				lo := new(big.Int).Sub(T, sm2gen.NM1)
+				if lo.Sign() <= 0 {
+					lo.SetInt64(1)
+				}
+				hi := new(big.Int).Sub(T, big.NewInt(1))
+				if hi.Cmp(sm2gen.NM1) > 0 {
+					hi.Set(sm2gen.NM1)
+				}
+				if hi.Cmp(lo) >= 0 {
+					span := new(big.Int).Sub(hi, lo)
+					span.Add(span, big.NewInt(1))
+					kv = new(big.Int).SetBytes(gen.RandBytes(r0, 40))
+					kv.Mod(kv, span).Add(kv, lo)
+					k = gen.Pad32(kv)
+					x1 = sm2ref.Mul(kv, sm2ref.G).X
+					rr := new(big.Int).Sub(T, kv)
+					ev := new(big.Int).Sub(rr, x1)
+					e = gen.Pad32(ev.Mod(ev, sm2gen.N))
+				}
+			case "r~0":
+				rr := words(new(big.Int))
+				rr.Mod(rr, sm2gen.N)
+				ev := new(big.Int).Sub(rr, x1)
+				e = gen.Pad32(ev.Mod(ev, sm2gen.N))
+			case "s~0":
+				// s = (1+d)^-1 (k - r d)  =>  d = (k - s) / (r + s)
+				sv := words(new(big.Int))
+				sv.Mod(sv, sm2gen.N)
+				rr := new(big.Int).Add(x1, new(big.Int).SetBytes(e))
+				rr.Mod(rr, sm2gen.N)
+				den := new(big.Int).Add(rr, sv)
+				den.Mod(den, sm2gen.N)
+				if den.Sign() != 0 {
+					nd := new(big.Int).Sub(kv, sv)
+					nd.Mul(nd, new(big.Int).ModInverse(den, sm2gen.N)).Mod(nd, sm2gen.N)
+					if nd.Sign() > 0 && nd.Cmp(sm2gen.NM2) <= 0 {
+						d, d32, dcls = nd, gen.Pad32(nd), "solved"
+					}
+				}
+			}
+			kcls = "partial-match:" + which
+		}
 		// make sure the signer accepts the first candidate (otherwise the retry is a different, legitimate, path)
 		group := entry
 		if d.Cmp(sm2gen.NM2) == 0 {
@@ -568,6 +634,11 @@ func TestVerif_C08_EntryInternals(t *testing.T) {
 			// the (unjudged) math/big glue of SignHashed calls the comparison routine only when r+k is exactly 32 bytes long:
 			// executions are grouped by that decision of the glue, so that only the library code below it is compared
 			group += fmt.Sprintf("|len(r+k)=%d", len(new(big.Int).Add(rr, kv).Bytes()))
+			// ... and returns its three-way ordering through a final branch (the routine's own verdict, cf. the key range test):
+			// r+k > n with 32 bytes happens for 2^-32 of the nonces only, but the partial-match class above produces it
+			if rk := new(big.Int).Add(rr, kv); len(rk.Bytes()) == 32 {
+				group += fmt.Sprintf("|cmp(r+k,n)=%d", rk.Cmp(sm2gen.N))
+			}
 		}
 		_ = r0
 		// history: the call before the traced one used the SAME key, or another key, or there was none — the trace of the traced call
